@@ -1,1 +1,48 @@
-From DV Require Import Prelude.Base Model.Node.
+(* C08 — received messages reach exactly the application the routing table names, once
+   Statements copied from the proof files; each is closed by `exact`. *)
+From DV Require Prelude.Base Model.Ids Proofs.IdsP Model.Node Proofs.NodeB.
+From Coq Require String List Lia Bool Arith ZArith.
+
+Module FromNodeB.
+Import DV.Prelude.Base DV.Model.Node DV.Proofs.NodeB.
+Import Coq.Strings.String.
+
+(* C08: an application request on an existing connection produces exactly what the routing
+   function says: one delivery to the chosen application, or one answer with the specified result code *)
+Theorem C08_route_refines n cid c m k :
+  get_conn n cid = Some c -> m_req m = true -> m_cmd m = App k ->
+  snd (receive_message n cid m) = route_outputs cid m (spec_route n c m).
+Proof. exact (@NodeB.C08_route_refines n cid c m k). Qed.
+
+(* C08: when the routing function delivers to application i, the delivery is the whole output: no
+   other application gets the request and the node queues nothing; and i is an application with the
+   request's application id, routed in the request's realm (through the sending peer if it is configured) *)
+Theorem C08_exactly_once n cid c m k i :
+  get_conn n cid = Some c -> m_req m = true -> m_cmd m = App k ->
+  spec_route n c m = Deliver i ->
+  snd (receive_message n cid m) = [ODeliver i m]
+  /\ (forall j m', List.In (ODeliver j m') (snd (receive_message n cid m)) -> j = i /\ m' = m)
+  /\ (forall cid' a, ~ List.In (OQueue cid' a) (snd (receive_message n cid m)))
+  /\ exists realm entries names a,
+       m_drealm m = Present realm /\ List.In (realm, entries) (n_routes n) /\
+       List.In (RApp i, names) entries /\ List.nth_error (n_apps n) i = Some a /\ a_id a = m_app m /\
+       match find_conn_peer n c with Some p => List.In (p_name p) names | None => True end.
+Proof. exact (@NodeB.C08_exactly_once n cid c m k i). Qed.
+
+(* C08: base protocol messages (capabilities exchange, watchdog, disconnect) never reach an application *)
+Theorem C08_base_never_delivered n cid m :
+  m_cmd m = CE \/ m_cmd m = DW \/ m_cmd m = DP ->
+  forall i m', ~ List.In (ODeliver i m') (snd (dispatch n cid m)).
+Proof. exact (@NodeB.C08_base_never_delivered n cid m). Qed.
+
+(* C08: once the connection is ready the gate lets every message through to the node *)
+Theorem C08_gate_then_route n cid c m :
+  get_conn n cid = Some c -> is_ready_state (c_state c) = true ->
+  dispatch n cid m = receive_message n cid m.
+Proof. exact (@NodeB.C08_gate_then_route n cid c m). Qed.
+End FromNodeB.
+
+Print Assumptions FromNodeB.C08_route_refines.
+Print Assumptions FromNodeB.C08_exactly_once.
+Print Assumptions FromNodeB.C08_base_never_delivered.
+Print Assumptions FromNodeB.C08_gate_then_route.
